@@ -424,3 +424,97 @@ func RCapsKey(c *core.Ctx) {
 		c.Anchor("single-result reads of a map[int]int")
 	}
 }
+
+// ---------------------------------------------------------------------------
+// R-IGNPAREN: "ignore the next paren" is consumed by the next paren.
+//
+// For an expression conditional (?(cond)yes|no) both passes of the parser set
+// ignoreNextParen so that the parenthesis of the condition does not become a
+// capture group.  The pre-scan (countCaptures) clears the flag at the end of
+// its `(` arm for every kind of group.  The main pass has to agree: whatever
+// construct the next `(` opens — plain, (?=…), (?<name>…) — scanGroupOpen must
+// leave the flag decided (cleared, or set again for a nested conditional) on
+// every successful return.  Otherwise (?(?=a)(a)|(b)) numbers (a) as group 1
+// in the pre-scan and parses it as a non-capturing group.
+// ---------------------------------------------------------------------------
+
+func RIgnParen(c *core.Ctx) {
+	c.Rule("R-IGNPAREN", "every successful return of scanGroupOpen (error result nil) is reached only after a store to parser.ignoreNextParen: the flag set for the condition of (?(…)…) is consumed by the very next parenthesis of any kind, as the pre-scan does at the end of its `(` arm", 3)
+	p := c.P
+	fn := p.SSAFunc(p.LookupFunc("syntax", "parser.scanGroupOpen"))
+	flag := p.LookupField("syntax", "parser", "ignoreNextParen")
+	pre := p.SSAFunc(p.LookupFunc("syntax", "parser.countCaptures"))
+	if fn == nil || flag == nil || pre == nil {
+		c.Anchor("syntax.parser.scanGroupOpen / countCaptures / parser.ignoreNextParen")
+		return
+	}
+	c.Visit(core.SSAName(fn))
+	// the pre-scan does clear it (sanity of the sibling this rule aligns with)
+	preClears := false
+	for _, b := range pre.Blocks {
+		for _, ins := range b.Instrs {
+			if st, ok := ins.(*ssa.Store); ok && core.FieldVarOfAddr(st.Addr) == flag {
+				if k, ok := st.Val.(*ssa.Const); ok && k.Value != nil && k.Value.String() == "false" {
+					preClears = true
+				}
+			}
+		}
+	}
+	if !preClears {
+		c.Anchor("countCaptures clearing ignoreNextParen")
+		return
+	}
+	has := map[*ssa.BasicBlock]bool{}
+	for _, b := range fn.Blocks {
+		for _, ins := range b.Instrs {
+			if st, ok := ins.(*ssa.Store); ok && core.FieldVarOfAddr(st.Addr) == flag {
+				has[b] = true
+			}
+		}
+	}
+	// a block entered only when the flag was just read as false is as good as a store of false
+	for _, b := range fn.Blocks {
+		for _, f := range core.FactsAtBlock(b) {
+			if ld, ok := f.Cond.(*ssa.UnOp); ok && !f.Val && core.FieldVarOfAddr(ld.X) == flag {
+				has[b] = true
+			}
+		}
+	}
+	in := map[*ssa.BasicBlock]bool{}
+	out := map[*ssa.BasicBlock]bool{}
+	for _, b := range fn.Blocks {
+		in[b], out[b] = true, true
+	}
+	for changed := true; changed; {
+		changed = false
+		for _, b := range fn.Blocks {
+			v := len(b.Preds) > 0
+			for _, pr := range b.Preds {
+				if !out[pr] {
+					v = false
+				}
+			}
+			if b == fn.Blocks[0] {
+				v = false
+			}
+			o := v || has[b]
+			if v != in[b] || o != out[b] {
+				in[b], out[b] = v, o
+				changed = true
+			}
+		}
+	}
+	n := 0
+	for _, b := range fn.Blocks {
+		ret, ok := b.Instrs[len(b.Instrs)-1].(*ssa.Return)
+		if !ok || len(ret.Results) != 2 || !core.IsNilConst(ret.Results[1]) {
+			continue
+		}
+		n++
+		c.Check(out[b], fmt.Sprintf("scanGroupOpen / successful return #%d leaves ignoreNextParen decided", n), ret.Pos(),
+			"this return can be reached without any store to ignoreNextParen: a group opened by `(?…` right after the flag was set (the condition of an expression conditional) leaves it set, and the NEXT plain parenthesis silently becomes non-capturing although the pre-scan gave it a number")
+	}
+	if n == 0 {
+		c.Anchor("successful returns of scanGroupOpen")
+	}
+}
